@@ -175,9 +175,57 @@ def lmExts (V : Nat) (mix : Option Rat) : List State → List FrameIn → List (
     lmExt V mix (tableLM tab) () f.nonext f.blank st [] :: lmExts V mix sts fs tabs
   | _, _, _ => []
 
+def parseExtTables (j : Json) : Except String (List (List (List Nat × List Rat))) :=
+  jsonToList (jsonToList (fun e => do
+    let arr ← e.getArr?
+    match arr.toList with
+    | [p, row] => do
+      let p ← jsonToList jsonToNat p
+      let row ← jsonToList jsonToRat row
+      pure (p, row)
+    | _ => throw "ext_table entry must be [prefix, row]")) j
+
+/-- the map recursion along given survivors, with per-frame facts (legitimate top-K?, anything pruned?,
+number of distinct candidates, number of kept candidates) -/
+def specGo (V : Nat) : List (PdtVerif.Ctc.Frame × Nat) → List (List (List Nat)) → PdtVerif.Ctc.Beam →
+    List (Bool × Bool × Nat × Nat) → PdtVerif.Ctc.Beam × List (Bool × Bool × Nat × Nat)
+  | (f, w) :: fs, k :: ks, bm, acc =>
+    let cs := (PdtVerif.Ctc.cands V bm).eraseDups
+    let ok := PdtVerif.Ctc.isTopKB V f w bm k
+    let pruned := cs.any (fun p => !k.contains p)
+    specGo V fs ks (PdtVerif.Ctc.beamStep V f k bm)
+      (acc ++ [(ok, pruned, cs.length, (k.filter (fun p => cs.contains p)).eraseDups.length)])
+  | _, _, bm, acc => (bm, acc)
+
+/-- the specification side for given frames: prefix-beam recursion pruned to `keeps` (`beam`), per-frame
+facts (`frames`), true mass of every prefix by enumeration of all alignments (`mass`, when wanted) -/
+def specSide (V : Nat) (specFrames : List PdtVerif.Ctc.Frame) (widths : List Nat)
+    (keeps : List (List (List Nat))) (beam0 : PdtVerif.Ctc.Beam) (wantMass : Bool) : Except String Json := do
+  let (beam, info) := specGo V (specFrames.zip widths) keeps beam0 []
+  let table := if wantMass then massTable V specFrames else []
+  -- cross-check the glue against the definitions on the first entries
+  -- (the cross-checks re-enumerate; they are done on the short runs only, where most cases are)
+  let small := specFrames.length ≤ 5
+  let chk := !small || (table.take 2).all (fun (p, m) => PdtVerif.Ctc.mass V specFrames p == m)
+  if !chk then throw "internal: massTable disagrees with Ctc.mass"
+  let ex := PdtVerif.Ctc.exact V specFrames
+  let chk2 := !small || (table.take 3).all (fun (p, m) => (ex p).1 + (ex p).2 == m)
+  if !chk2 then throw "internal: forward variables disagree with alignment enumeration (theorem exact_eq_mass)"
+  return objJ [
+    ("beam", listJ (fun (e : List Nat × (Rat × Rat)) =>
+        objJ [("p", prefJ e.1), ("nb", ratToJson e.2.1), ("b", ratToJson e.2.2)]) beam),
+    ("frames", listJ (fun (x : Bool × Bool × Nat × Nat) =>
+        objJ [("topk_ok", boolJ x.1), ("pruned", boolJ x.2.1), ("ncands", natJ x.2.2.1),
+              ("nkeep", natJ x.2.2.2)]) info),
+    ("mass", if wantMass then
+        listJ (fun (e : List Nat × Rat) => objJ [("p", prefJ e.1), ("m", ratToJson e.2)]) table
+      else Json.null)]
+
 /-- One batch element. common: {fix, V, width, spec?}; element: {len, frames:[{ext,nonext,blank,sel?}],
 init?: state, ext_table?: per frame [[prefix,[row]]..], keeps?: per frame [prefix..],
-lm_factor?: per frame [[prefix,[LM factor per token]]..], mix?: "n/d" | null}. -/
+lm_factor?: per frame [[prefix,[LM factor per token]]..], mix?: "n/d" | null,
+oracle?: {frames: [{tok, blank}..] (the element's valid frames), ext_table?}} →
+{model, spec (on the frames of the calls), spec_exact (on the oracle frames, same survivors)}. -/
 def c05Elem (fix : Bool) (V width : Nat) (wantSpec : Bool) (c : Json) : Except String Json := do
   let len ← getNat c "len"
   let frames ← getList parseFrame c "frames"
@@ -217,14 +265,7 @@ def c05Elem (fix : Bool) (V width : Nat) (wantSpec : Bool) (c : Json) : Except S
   let used := frames.take len
   let tabs : List (List (List Nat × List Rat)) ← match fieldOpt c "ext_table" with
     | none => pure (used.map (fun _ => []))
-    | some j => jsonToList (jsonToList (fun e => do
-        let arr ← e.getArr?
-        match arr.toList with
-        | [p, row] => do
-          let p ← jsonToList jsonToNat p
-          let row ← jsonToList jsonToRat row
-          pure (p, row)
-        | _ => throw "ext_table entry must be [prefix, row]")) j
+    | some j => parseExtTables j
   let specFrames ← (used.zip (tabs ++ List.replicate used.length [])).mapM (fun (f, tab) => do
     let tok ← f.nonext.mapM xrRat
     let bl ← xrRat f.blank
@@ -237,41 +278,31 @@ def c05Elem (fix : Bool) (V width : Nat) (wantSpec : Bool) (c : Json) : Except S
   let keeps ← match fieldOpt c "keeps" with
     | none => pure ((steps.take len).map (fun (s, _) => validPrefixes s))
     | some j => jsonToList (jsonToList (jsonToList jsonToNat)) j
-  let rec go : List (PdtVerif.Ctc.Frame × Nat) → List (List (List Nat)) → PdtVerif.Ctc.Beam →
-      List (Bool × Bool × Nat × Nat) → PdtVerif.Ctc.Beam × List (Bool × Bool × Nat × Nat)
-    | (f, w) :: fs, k :: ks, bm, acc =>
-      let cs := (PdtVerif.Ctc.cands V bm).eraseDups
-      let ok := PdtVerif.Ctc.isTopKB V f w bm k
-      let pruned := cs.any (fun p => !k.contains p)
-      go fs ks (PdtVerif.Ctc.beamStep V f k bm) (acc ++ [(ok, pruned, cs.length, (k.filter (fun p => cs.contains p)).eraseDups.length)])
-    | _, _, bm, acc => (bm, acc)
   -- a run that starts from a caller-given state is compared with the recursion started from the map that
   -- state stands for; the alignment enumeration (true mass) only makes sense from the initial state
   let fromInit := (fieldOpt c "init").isSome
   let beam0 := if fromInit then beamOfState st0 else PdtVerif.Ctc.beamInit
-  let (beam, info) := go (specFrames.zip widths) keeps beam0 []
   let wantMass := !fromInit && (match fieldOpt c "mass" with
     | some (.bool b) => b
     | _ => true)
-  let table := if wantMass then massTable V specFrames else []
-  -- cross-check the glue against the definitions on the first entries
-  -- (the cross-checks re-enumerate; they are done on the short runs only, where most cases are)
-  let small := specFrames.length ≤ 5
-  let chk := !small || (table.take 2).all (fun (p, m) => PdtVerif.Ctc.mass V specFrames p == m)
-  if !chk then throw "internal: massTable disagrees with Ctc.mass"
-  let ex := PdtVerif.Ctc.exact V specFrames
-  let chk2 := !small || (table.take 3).all (fun (p, m) => (ex p).1 + (ex p).2 == m)
-  if !chk2 then throw "internal: forward variables disagree with alignment enumeration (theorem exact_eq_mass)"
-  let specJ := objJ [
-    ("beam", listJ (fun (e : List Nat × (Rat × Rat)) =>
-        objJ [("p", prefJ e.1), ("nb", ratToJson e.2.1), ("b", ratToJson e.2.2)]) beam),
-    ("frames", listJ (fun (x : Bool × Bool × Nat × Nat) =>
-        objJ [("topk_ok", boolJ x.1), ("pruned", boolJ x.2.1), ("ncands", natJ x.2.2.1),
-              ("nkeep", natJ x.2.2.2)]) info),
-    ("mass", if wantMass then
-        listJ (fun (e : List Nat × Rat) => objJ [("p", prefJ e.1), ("m", ratToJson e.2)]) table
-      else Json.null)]
-  return objJ [("model", modelJ), ("spec", specJ)]
+  let specJ ← specSide V specFrames widths keeps beam0 wantMass
+  -- the same specification on the frames the harness computed from the CALLER'S scores (exact softmax /
+  -- fusion of the logits, no torch): `oracle: {frames: [{tok, blank}..], ext_table?}`, same survivors
+  let exactJ ← match fieldOpt c "oracle" with
+    | none => pure Json.null
+    | some o => do
+      let ofr ← getList (fun j => do
+        let tok ← getList jsonToRat j "tok"
+        let bl ← field j "blank" >>= jsonToRat
+        pure (tok, bl)) o "frames"
+      let otabs : List (List (List Nat × List Rat)) ← match fieldOpt o "ext_table" with
+        | none => pure (ofr.map (fun _ => []))
+        | some j => parseExtTables j
+      let oFrames := (ofr.zip (otabs ++ List.replicate ofr.length [])).map
+        (fun ((tok, bl), tab) => mkFrame V tok bl tab)
+      if oFrames.length != specFrames.length then throw "oracle: one frame per valid frame of the element expected"
+      specSide V oFrames widths keeps beam0 wantMass
+  return objJ [("model", modelJ), ("spec", specJ), ("spec_exact", exactJ)]
 
 /-- case: {fix, V, width, spec?, elements: [element..]} → {"elements": [{model, spec}..]}. -/
 def c05Case : Handler := fun c => do
